@@ -49,3 +49,21 @@ Definition node_ranges_case (c : nat * nat) : list (nat * nat) :=
   let (n, ps) := c in
   let T := build 1 (repeat [Some 0%Z; Some 0%Z] n) (seq 0 n) ps in
   map (fun node => (start_index T node, stop_index T node)) (seq 0 (tree_len T)).
+
+(* ---- public-API comparison: the model runs with the identity permutation as
+   [keys]; by C03_independent the index sets and total_bounds do not depend on
+   the permutation (for rows with min <= max), so no internal of the real index
+   is needed ---- *)
+Definition rtree_case_public (c : nat * list row * nat * list (list Z)) : row * list Z :=
+  let '(d, rows, page_size, queries) := c in
+  let T := build d rows (seq 0 (length rows)) page_size in
+  (total_bounds T, map (query_packed T (length rows)) queries).
+
+Definition rtree_case_public_1d (c : list row * nat) : row * list Z :=
+  let (rows, page_size) := c in
+  rtree_case_public (1, rows, page_size, all_queries_1d).
+
+(* ---- optional, internals-based: the tree array for the exported keys ---- *)
+Definition tree_case (c : nat * list row * list nat * nat) : list row :=
+  let '(d, rows, keys, page_size) := c in
+  t_tree (build d rows keys page_size).
